@@ -34,7 +34,7 @@ OUTSIDE = ['non-ASCII names', 'backslash in names and drive-letter forms (define
            "ninja's own depfile parser"]
 STUBS = []
 ASSUMPTIONS = ['Path suffix representation invariant (C12)', 'rninja trusted']
-MAKE_FNS = ['mt_target', 'md_prereq', 'mo_dir_sentinel', 'mr_auto_var', 'mf_find_deps',
+MAKE_FNS = ['mt_target', 'mv_target_var', 'md_prereq', 'mo_dir_sentinel', 'mr_auto_var', 'mf_find_deps',
             'ms_source_prereq', 'mi_include', 'mx_dir_rule', 'mc_call_arg']
 NINJA_FNS = ['nt_output', 'ni_input', 'nb_build_line']
 CORPUS_ALPHA = list("a\\ :#%*]~$|;=()'&\t")
@@ -145,7 +145,7 @@ def obligations(tier, kf):
                     if tier == 'quick' and fn == 'ms_source_prereq' and (shape, rooti) == (0, 0):
                         pass       # length 3 below
                     if tier == 'quick' and n == 2 and (shape, rooti) != (0, 0) and \
-                            fn not in ('mt_target', 'md_prereq', 'nt_output', 'ms_source_prereq'):
+                            fn not in ('mt_target', 'mv_target_var', 'md_prereq', 'nt_output', 'ms_source_prereq'):
                         continue
                     p = dict(kf, N=n, shape=shape, rooti=rooti, excl=excl)
                     ob = Ob(fn, p, T[n], desc='%s shape#%d root#%d |c|==%d' % (fn, shape, rooti, n))
@@ -168,7 +168,7 @@ def obligations(tier, kf):
     return obs
 
 
-MUTANTS = {'mt_target': ['make_target_no_colon'], 'md_prereq': ['make_dep_no_pipe'],
+MUTANTS = {'mt_target': ['make_target_no_colon'], 'mv_target_var': ['make_target_var_line_reescaped'], 'md_prereq': ['make_dep_no_pipe'],
            'mi_include': ['make_include_double_escape'],            'mf_find_deps': ['depfile_target_escape_for_prereq'], 'mc_call_arg': ['make_function_no_comma_escape'],
            'nt_output': ['ninja_path_no_colon'], 'mr_auto_var': ['make_qvar_unquoted']}
 
